@@ -10,3 +10,4 @@ import Modbus.Props.C05Full
 #print axioms Modbus.C05Full.tcp_response_end_to_end_fails
 #print axioms Modbus.C05Full.tcp_exception_end_to_end
 #print axioms Modbus.C05Full.tcp_exception_end_to_end_codes
+#print axioms Modbus.C05Full.tcp_read_exception_status_end_to_end
